@@ -6,7 +6,7 @@ CONSTANTS
   LenClasses = {"empty", "short", "block", "long"}
   IdClasses = {"low", "gen", "high"}
   Roots = {"object", "objstm"}
-  Dev = {"array_elements_not_decrypted"}
+  Dev = {"catalog_read_before_decoder"}
 INIT Init
 NEXT Next
 INVARIANTS PlaintextOrRejected
